@@ -252,7 +252,7 @@ class Axis(GetSetDelAttrMixin, AbstractAxis):
         if name is not None:
             ax.name = name
         if 'attrs' in kwargs:
-            self.attrs = kwargs.pop('attrs')
+            ax.attrs = kwargs.pop('attrs')
         for k in kwargs:
             setattr(ax, k, kwargs[k])
 
